@@ -51,6 +51,7 @@ type TestDir struct {
 	Probes []string `json:"probes,omitempty"`
 	// Big: a big module generated from a compact description (see big.go); Mods is empty then.
 	Big *BigSpec `json:"big,omitempty"`
+	idx int      // position in the run (stable key for the statistics)
 }
 
 func escPath(p string) (string, bool) {
